@@ -53,6 +53,45 @@ CLAIMED = {
              "needed for the TLS 1.0 S1/S2 split); RSA/pre-master branches modelled but not claimed; extraction, OCaml driver and the crypto pipe oracle for the correspondence.",
         technique="Coq proof (loop invariants over the RFC's P_hash stream, slice algebra, case analysis over cipher classes) + oracle-backed correspondence on installed keys",
         design="3 C15"),
+    "C02": dict(
+        text="Proof (partial): Coq theorems on the output side of the QUIC path -- C02_nothing_lost_or_added (the payloads written are, concatenated, exactly the data "
+             "of the collected frames in order), C02_per_direction (each direction receives exactly its own frames' data), C02_one_output_per_input_datagram (capture times "
+             "pairwise distinct: the non-empty output datagrams are exactly the input datagrams that carried data, each with its own time, direction and data); packet-number "
+             "reconstruction and nonce are C16's theorems, the key schedule C15's. That the frames collected are the frames sent (header protection, key selection per "
+             "packet type and key phase, CRYPTO reassembly, CID matching, Retry, 0-RTT) has no theorem yet: it is decided by an independent RFC 9000/9001 reference sender "
+             "run through the implementation over every dimension of the quantifier, with the executable session model (dissector, TLS parser, session, builder, demultiplexer) "
+             "tied to the implementation by byte-exact output correspondence. One open finding (0-RTT with another suite offered first).",
+        note="Trusted: Coq kernel; hand-written QUIC models tied by byte-exact correspondence (reference connections, all shipped QUIC captures); tools/ref/quic_ref.py as the oracle "
+             "of the search; timestamps: the reader's float identity is an input of the model; extraction/driver/crypto pipe oracle.",
+        technique="Coq proof (grouping lemmas by induction over frame runs) + reference-sender search over the quantifier + byte-exact model/implementation correspondence",
+        design="3 C02"),
+    "C06": dict(
+        text="Proof (TLS conversation, splitting, TCP/IPv4 frame validity; rest by strict read-back): Coq theorems C06_conversation (a non-empty export is a three-way handshake "
+             "followed by segments that the standard reassembler of Spec/Reader.v reads back as exactly the exported streams: gap-free, non-overlapping, consistent "
+             "acknowledgements), C06_splitting (a record carried by k packets is re-split into at most k parts whose concatenation is the record), C06_tcp_checksum and "
+             "C06_ipv4_header (the frame model's TCP checksum and IPv4 header verify, lengths correct). UDP/IPv6 frames, the pcapng block layout and the empty-session cases are "
+             "decided by an independent strict pcapng reader, frame validator and TCP reassembler on the implementation's output for healthy and damaged captures under "
+             "rotating option sets, with byte-exact model/implementation correspondence.",
+        note="Trusted: Coq kernel; scapy/dpkt serialisation modelled (Model/Frames.v, PcapngWriter.v) and tied by byte-exact correspondence; tools/ref/readback.py.",
+        technique="Coq proof (builder invariant, one's-complement arithmetic) + strict independent read-back of every output",
+        design="3 C06"),
+    "C07": dict(
+        text="Proof: Coq theorems C07_provenance (a record's metadata is exactly the set of buffered packets whose byte range intersects the record's), C07_times_and_direction "
+             "(handshake stamped with the first carrier of the first exported record; every segment stamped with a carrier of its own record and flowing in the record's "
+             "direction), C07_addressing (every frame goes from the sender's MAC/IP/port to the receiver's, IP version of the flow), C07_roles (roles fixed by the flow's first "
+             "packet); QUIC times and directions are C02_one_output_per_input_datagram. Closed under the global context. The check compares every exported frame of reference "
+             "captures with the endpoints and the exact overlap set of its record.",
+        note="Trusted: Coq kernel; models tied by byte-exact correspondence; timestamps are the reader's floats (microsecond value and float identity computed by the harness).",
+        technique="Coq proof (overlap characterisation, builder invariant) + per-frame provenance oracle on reference captures",
+        design="3 C07"),
+    "C13": dict(
+        text="Proof: Coq theorems C13_traffic (what a TLS session hands to the builder without -a is what it hands over with -a minus the entries only -a adds; no cipher state "
+             "depends on the option), C13_only_adds (the data segments written without -a are, payload for payload and in order, a subsequence of those written with -a), "
+             "C13_hello_verbatim (every handshake record, the hellos among them, is emitted verbatim as an entry of its own), C13_quic (per direction the bytes exported without -a "
+             "are the STREAM data; with -a the same frames' data with CRYPTO data in between, in frame order). Closed under the global context.",
+        note="Trusted: Coq kernel; models tied by byte-exact correspondence at both settings of the option.",
+        technique="Coq proof (filtering commutes with the session fold and the builder) + paired exports with and without -a",
+        design="3 C13"),
     "C05": dict(
         text="Proof (partial): Coq theorems over the model of Session.handle_packet / extract_*_buf / get_tls_records: C05_segmentation_and_duplicates (per direction: ANY "
              "cut of a well-framed record stream into segments, from ANY initial sequence number modulo 2^32 -- streams across 2^32 included -- with ANY retransmitted "
